@@ -599,6 +599,34 @@ def instance_scenarios(rng, n_random=6):
     return out
 
 
+def chain_scenarios(rng, n=12):
+    """Directed histories around eliminate_1to1_forks: chains of 2-4 non-port 1:1 forks between a driving cell and a reading
+    cell, the forks created in a random order (Circuit.forks iterates in creation order), optionally with a multi-output
+    fork or a port fork in the chain, then eliminate (twice) and a copy."""
+    out = []
+    for _ in range(n):
+        k = rng.randint(2, 4)
+        order = list(range(k))
+        rng.shuffle(order)
+        ops = [['node', 'drv', 'AND2'], ['node', 'rdr', 'OR2']]          # ids 0, 1
+        ids = {}
+        for j in order:                                                    # fork j gets id 2 + position in creation order
+            ids[j] = 2 + len(ids)
+            ops.append(['node', 'c%d' % j, FORK])
+        chain = [0] + [ids[j] for j in range(k)] + [1]
+        for a, b in zip(chain, chain[1:]):
+            ops.append(['line', a, None, b, (1 if (b == 1 and rng.random() < 0.5) else None)])
+        nid = 2 + k
+        if rng.random() < 0.4:                                             # a second reader on one fork: that fork must survive
+            ops += [['node', 'x', 'INV1'], ['line', ids[rng.randrange(k)], None, nid, None]]
+            nid += 1
+        if rng.random() < 0.3:
+            ops += [['io', 0, ids[rng.randrange(k)]]]                      # a port fork in the chain is never eliminated
+        ops += [['elim'], ['elim'], ['copy']]
+        out.append(ops)
+    return out
+
+
 def describe(op):
     k = op[0]
     if k == 'subst':
